@@ -1,6 +1,13 @@
 //! monitor <ID> --seed S --shard i/n --tier quick|thorough --out FILE [--case K] [--workdir DIR] [--budget N] [--variant V]
 mod util;
+mod model;
+mod gen;
+mod drive;
+mod obs;
+mod dumpcheck;
+mod hist;
 
+mod c01;
 mod c13;
 
 use util::*;
@@ -50,7 +57,12 @@ fn main() {
     install_panic_hook();
     let mut rep = Report::new(&p.prop);
     let started = std::time::Instant::now();
+    if std::env::var("VERIF_TRACE").is_ok() {
+        c01::trace(&p, p.only_case.unwrap_or(0));
+        return;
+    }
     match p.prop.as_str() {
+        "C01" => c01::run(&p, &mut rep),
         "C13" => c13::run(&p, &mut rep),
         other => {
             eprintln!("no monitor for {}", other);
